@@ -89,28 +89,27 @@ def _family(syntax, left, abbr):
     return 'roundtrip'
 
 
-def check_roundtrip(syntax, left, abbr, right):
+def check_roundtrip(syntax, left, prefix, abbr, right):
     from emmet import extract
-    for prefix in c11_gen.PREFIXES:
-        line = left + prefix + abbr + right
-        location = len(left) + len(prefix)
-        caret = location + len(abbr)
-        for look_ahead in (True, False):
-            opt = {'type': syntax, 'lookAhead': look_ahead}
-            if prefix:
-                opt['prefix'] = prefix
-            r = extract(line, caret, dict(opt))
-            what = _consistent(line, caret, opt, r)
-            if what:
-                return 'consistency: ' + what
-            if look_ahead and right[:1] and right[0] in QUOTES + CLOSERS:
-                continue            # the statement allows the end to move here: no round-trip demand
-            if r is None or r.abbreviation != abbr or r.location != location or r.end != caret:
-                # with a prefix the scan is bounded by the prefix: the left context is not visible to the heuristic
-                fam = _family(syntax, '' if prefix else left, abbr)
-                got = None if r is None else {'abbreviation': r.abbreviation, 'location': r.location, 'start': r.start, 'end': r.end}
-                return '%s: extract(%r, %d, %r) = %r, expected the abbreviation %r at %d..%d' % (
-                    fam, line, caret, opt, got, abbr, location, caret)
+    line = left + prefix + abbr + right
+    location = len(left) + len(prefix)
+    caret = location + len(abbr)
+    for look_ahead in (True, False):
+        opt = {'type': syntax, 'lookAhead': look_ahead}
+        if prefix:
+            opt['prefix'] = prefix
+        r = extract(line, caret, dict(opt))
+        what = _consistent(line, caret, opt, r)
+        if what:
+            return 'consistency: ' + what
+        if look_ahead and right[:1] and right[0] in QUOTES + CLOSERS:
+            continue            # the statement allows the end to move here: no round-trip demand
+        if r is None or r.abbreviation != abbr or r.location != location or r.end != caret:
+            # with a prefix the scan is bounded by the prefix: the left context is not visible to the heuristic
+            fam = _family(syntax, '' if prefix else left, abbr)
+            got = None if r is None else {'abbreviation': r.abbreviation, 'location': r.location, 'start': r.start, 'end': r.end}
+            return '%s: extract(%r, %d, %r) = %r, expected the abbreviation %r at %d..%d' % (
+                fam, line, caret, opt, got, abbr, location, caret)
     return None
 
 
@@ -120,18 +119,17 @@ def strings(alpha, maxlen, minlen=0):
             yield (''.join(t),)
 
 
-def _embed(syntax, abbrs, want_lookalike):
+def _embed(syntax, abbrs, ctxs, want_lookalike):
     for a in abbrs:
-        for left in c11_gen.LEFTS:
-            if (syntax == 'markup' and c11_gen.tag_lookalike(left, a)) != want_lookalike:
+        for left, prefix, right in ctxs:
+            if (syntax == 'markup' and c11_gen.tag_lookalike('' if prefix else left, a)) != want_lookalike:
                 continue
-            for right in c11_gen.RIGHTS:
-                yield (syntax, left, a, right)
+            yield (syntax, left, prefix, a, right)
 
 
 def run(tier, seed):
     quick = tier == 'quick'
-    ll, nl, nrand, maxel = (4, 6, 3000, 6) if quick else (5, 7, 40000, 8)
+    ll, nl, nrand, maxel = (4, 5, 3000, 6) if quick else (5, 7, 20000, 8)
     rng = random.Random(seed)
     out = []
     nopt = len(OPTION_SETS)
@@ -148,7 +146,7 @@ def run(tier, seed):
     run_parallel(c, 'bounded.c11', 'check_line', strings(NARROW, nl, ll + 1), chunk=500)
     out.append(c.done())
 
-    markup = c11_gen.markup_abbreviations(tier)
+    markup, markup_what = c11_gen.markup_abbreviations(tier)
     rnd = []
     seen = set(markup)
     while len(rnd) < nrand:
@@ -157,40 +155,40 @@ def run(tier, seed):
             seen.add(a)
             rnd.append(a)
     css = c11_gen.stylesheet_abbreviations()
-    ctx = '%d left contexts %r x %d right contexts %r x prefix %r x lookAhead on/off' % (
-        len(c11_gen.LEFTS), c11_gen.LEFTS, len(c11_gen.RIGHTS), c11_gen.RIGHTS, c11_gen.PREFIXES)
-    rule = 'a case is one (syntax, left context, abbreviation, right context); prefixes and look-ahead are varied inside; distinct by tuple'
+    ctxs = c11_gen.contexts(tier)
+    ctx = '%d (left context, prefix, right context) triples%s, lookAhead on/off; lefts %r, rights %r, prefixes %r' % (
+        len(ctxs), '' if not quick else ' (all lefts x 2 rights, 2 lefts x all rights, 8 prefix triples)',
+        c11_gen.LEFTS, c11_gen.RIGHTS, c11_gen.PREFIXES)
+    rule = ('a case is one (syntax, left context, prefix, abbreviation, right context): the line is their concatenation, the '
+            'caret is at the end of the abbreviation; look-ahead on/off inside; distinct by tuple')
 
-    c = Clause('roundtrip-markup', 'B',
-               'c11_gen.markup_abbreviations(%r): all single elements (name x <=2 decorations x suffix), element OP tail, '
-               '3-element combinations of 12 representatives with every operator pair, groups; tag look-alikes routed to '
-               'their own clause' % tier,
+    c = Clause('roundtrip-markup', 'B', markup_what + '; tag look-alikes routed to their own clause',
                '%d abbreviations x %s' % (len(markup), ctx), rule, exhaustive=True)
-    run_parallel(c, 'bounded.c11', 'check_roundtrip', _embed('markup', markup, False), chunk=1000)
+    run_parallel(c, 'bounded.c11', 'check_roundtrip', _embed('markup', markup, ctxs, False), chunk=1000)
     out.append(c.done())
 
     c = Clause('roundtrip-markup-random', 'B', 'seeded random abbreviations: 2..%d elements from the element pool, operators > + ^, '
                'nested groups with repeaters; tag look-alikes routed to their own clause' % maxel,
                '%d abbreviations (seed %d) x %s' % (len(rnd), seed, ctx), rule, exhaustive=False)
-    run_parallel(c, 'bounded.c11', 'check_roundtrip', _embed('markup', rnd, False), chunk=1000)
+    run_parallel(c, 'bounded.c11', 'check_roundtrip', _embed('markup', rnd, ctxs, False), chunk=1000)
     out.append(c.done())
 
     c = Clause('roundtrip-stylesheet', 'B', 'c11_gen.stylesheet_abbreviations(): property x value forms (numbers, units, colours, '
                'keywords, !, variables, one-argument functions) and + combinations',
                '%d abbreviations x %s' % (len(css), ctx), rule, exhaustive=True)
-    run_parallel(c, 'bounded.c11', 'check_roundtrip', _embed('stylesheet', css, False), chunk=1000)
+    run_parallel(c, 'bounded.c11', 'check_roundtrip', _embed('stylesheet', css, ctxs, False), chunk=1000)
     out.append(c.done())
 
     c = Clause('roundtrip-tag-lookalike', 'B',
                'the (left context, abbreviation) pairs of the two markup clauses above for which c11_gen.tag_lookalike holds '
                '(text in front of a child operator ends like an HTML tag with an unquoted last attribute)',
                'same pools and contexts as roundtrip-markup and roundtrip-markup-random', rule, exhaustive=True)
-    run_parallel(c, 'bounded.c11', 'check_roundtrip', _embed('markup', markup + rnd, True), chunk=1000)
+    run_parallel(c, 'bounded.c11', 'check_roundtrip', _embed('markup', markup + rnd, ctxs, True), chunk=1000)
     out.append(c.done())
 
     fn = c11_gen.stylesheet_function_abbreviations()
     c = Clause('roundtrip-stylesheet-function-args', 'B', 'stylesheet abbreviations whose value is a function call with several '
                'comma-separated arguments', '%d abbreviations x %s' % (len(fn), ctx), rule, exhaustive=True)
-    run_parallel(c, 'bounded.c11', 'check_roundtrip', _embed('stylesheet', fn, False), chunk=1000)
+    run_parallel(c, 'bounded.c11', 'check_roundtrip', _embed('stylesheet', fn, ctxs, False), chunk=1000)
     out.append(c.done())
     return out
